@@ -28,7 +28,8 @@ def generate(seed, tier="quick"):
                         n_choices=[2, 3, 4, 5, 8, 8, 16, 32, 64], tight_share=0.4)
     tight = world["solver"]["tol"] == "tight"
     total = rng.choice([0.3, 0.5, 1.0, 2.0, 4.0, 6.0])
-    ops = S.gen_history_ops(rng, world, total=total, n_max=rng.choice([2, 4, 8, 16, 40]))
+    ops = S.gen_history_ops(rng, world, total=total, n_max=rng.choice([2, 4, 8, 16, 40]),
+                            restart_share=0.1 if rng.random() < 0.25 else 0.0)
     if rng.random() < 0.25:
         out = []
         for op in ops:
@@ -87,6 +88,7 @@ def _execute(scn):
     counters["kappa_power_of_two" if pow2 else "kappa_general"] = 1
     counters["geological_rate(k<1e-10)"] = int(min(kA, kB) < 1e-10)
     counters["faulted_updates"] = sum(1 for r in wA.log if r.get("fault"))
+    counters["restarts_through_store"] = sum(1 for r in wA.log if r["op"] == "restart")
     stats = {
         "counters": counters, "maxima": maxima,
         "sim_strain": float(sum(m.strain for m in wA.minerals)),
@@ -133,13 +135,13 @@ ASSUMPTIONS = ["'within solver tolerance' is taken as twice the accumulated ODE 
                "grains are below the sliding threshold while their integrated fractions agree within "
                "tolerance (exact tie); counted as inconclusive_tie",
                "axis-aligned initial textures (exact zeros in the slip invariants) are not generated"]
-PROBES = ["kappa_power_of_two", "kappa_general", "geological_rate(k<1e-10)", "faulted_updates"]
+PROBES = ["restarts_through_store", "kappa_power_of_two", "kappa_general", "geological_rate(k<1e-10)", "faulted_updates"]
 
 
 def warmup():
     from ..warm import warm_world
 
-    warm_world(restart=False, ints=False, regimes=(4, 6))
+    warm_world(restart=True, ints=False, regimes=(4, 6))
 
 
 def coverage_floor(counters, n_done):
